@@ -91,9 +91,13 @@ for what, nm in ((0, 'arr'), (1, 'obj')):
            unwind=5, unwindset=ML(42) + ['strlen.0:12', 'vf_sprintf.3:26'], stub=['print_value'] + (['print_string_ptr'] if what else []), cost=10 + nc,
            tiers=('quick', 'thorough') if nc <= 2 else ('thorough',), functions=['print_array', 'print_object', 'print_string_ptr', 'ensure', 'update_offset'])
 for ts in (1, 2, 3, 4):
-    QM(('C09', 'C05', 'C04', 'C01'), 'pstr.S%d' % ts, 'harness/print_str.c', defs=['-DTS=%d' % ts], unwind=ts + 3,
-       unwindset=ML(6 * ts + 14) + ['strlen.0:%d' % (6 * ts + 6), 'memcmp.0:%d' % (ts + 3), 'vf_sprintf.3:26', 'vf_sprintf.0:8', 'vf_sprintf.1:8', 'vf_sprintf.2:8', 'parse_string.0:%d' % (6 * ts + 4), 'parse_string.1:%d' % (6 * ts + 4), 'ref_string.0:%d' % (6 * ts + 4), 'parse_hex4.0:5'], cost=8 * ts,
-       tiers=('quick', 'thorough') if ts <= 2 else ('thorough',), functions=['print_string_ptr', 'ensure', 'parse_string', 'utf16_literal_to_utf8', 'parse_hex4'])
+    # the round trip through the real parse_string (C04) is much heavier than the print obligations: strings of 4 bytes give no verdict for C04
+    for props, tmo in ((('C09', 'C05', 'C01'), 1800), (('C04',), 3000)):
+        if 'C04' in props and ts == 4:
+            continue
+        QM(props, 'pstr.S%d' % ts, 'harness/print_str.c', defs=['-DTS=%d' % ts], unwind=ts + 3,
+           unwindset=ML(6 * ts + 14) + ['strlen.0:%d' % (6 * ts + 6), 'memcmp.0:%d' % (ts + 3), 'vf_sprintf.3:26', 'vf_sprintf.0:8', 'vf_sprintf.1:8', 'vf_sprintf.2:8', 'parse_string.0:%d' % (6 * ts + 4), 'parse_string.1:%d' % (6 * ts + 4), 'ref_string.0:%d' % (6 * ts + 4), 'parse_hex4.0:5'], cost=8 * ts,
+           tiers=('quick', 'thorough') if ts <= 2 else ('thorough',), timeout=tmo, mem_gb=30, functions=['print_string_ptr', 'ensure', 'parse_string', 'utf16_literal_to_utf8', 'parse_hex4'])
 QM(('C04', 'C05', 'C09'), 'pnum', 'harness/print_num.c', unwind=28, unwindset=ML(42) + ML(42, 30, 'body') + ['vf_put_ulong.0:12', 'vf_put_ulong.1:12', 'vf_sprintf.0:28', 'vf_sprintf.1:28', 'vf_sprintf.2:28', 'vf_sprintf.3:28', 'strlen.0:8', 'memcmp.0:8'],
    cost=30, functions=['print_number', 'compare_double', 'ensure', 'get_decimal_point'], timeout=900, native_search=True)
 QM(('C05', 'C09'), 'pleaf', 'harness/print_leaf.c', unwind=8, unwindset=ML(26), stub=['print_value', 'print_number', 'print_string_ptr', 'print_array', 'print_object'], cost=3,
